@@ -54,20 +54,30 @@ Proof. exact encode_accepts. Qed.
 Theorem C08_model_alphabet : forall r, r <> 0xC7 -> r <> 0xE7 -> rune_septets r = spec_septets r.
 Proof. exact model_alphabet_is_spec. Qed.
 
-(* decoder side, every septet and every ESC+septet, running code vs standard and vs model *)
-Theorem C08_decode_single : forall s src cls rs, In (s, src, cls, rs) g7_dec_single -> s <> 9 -> (cls, rs) = spec_single s.
+(* decoder side, every septet and every ESC+septet, running code vs standard and vs model:
+   where GSM 03.38 has a character at that position (has_char) the running decoder returns exactly
+   it; where it has none (a lone ESC, ESC + a code without an extension character) C08 asks for
+   "a value or an error" and nothing more (GSM 03.38 6.2.1.1 itself lets a receiver show the
+   default-table character or a space there) *)
+Theorem C08_decode_single : forall s src cls rs, In (s, src, cls, rs) g7_dec_single -> s <> 9 ->
+  (has_char [] s = true -> (cls, rs) = spec_single s) /\ (has_char [] s = false -> cls = 0 \/ cls = 1).
 Proof. exact g7_dec_single_spec. Qed.
-Theorem C08_decode_escape : forall s src cls rs, In (s, src, cls, rs) g7_dec_escape -> (cls, rs) = spec_escape s.
+Theorem C08_decode_escape : forall s src cls rs, In (s, src, cls, rs) g7_dec_escape ->
+  (has_char [gsm_esc] s = true -> (cls, rs) = spec_escape s) /\ (has_char [gsm_esc] s = false -> cls = 0 \/ cls = 1).
 Proof. exact g7_dec_escape_spec. Qed.
+(* has_char is not vacuous: all 127 default positions and the 10 extension positions *)
+Theorem C08_decode_positions :
+  length (filter (has_char []) (nat_seq_N 128)) = 127%nat /\ length (filter (has_char [gsm_esc]) (nat_seq_N 128)) = 10%nat.
+Proof. exact has_char_counts. Qed.
 Theorem C08_decode_tables_complete :
   map (fun x => fst (fst (fst x))) g7_dec_single = nat_seq_N 128 /\
   map (fun x => fst (fst (fst x))) g7_dec_escape = nat_seq_N 128.
 Proof. exact (conj g7_dec_single_keys g7_dec_escape_keys). Qed.
 Theorem C08_decode_single_model : forall s src cls rs, In (s, src, cls, rs) g7_dec_single ->
-  out_is beq_runes (decode src) cls rs = true.
+  if has_char [] s then out_is beq_runes (decode src) cls rs = true else dec_obs_ok src cls rs = true.
 Proof. exact g7_dec_single_model_row. Qed.
 Theorem C08_decode_escape_model : forall s src cls rs, In (s, src, cls, rs) g7_dec_escape ->
-  out_is beq_runes (decode src) cls rs = true.
+  if has_char [gsm_esc] s then out_is beq_runes (decode src) cls rs = true else dec_obs_ok src cls rs = true.
 Proof. exact g7_dec_escape_model_row. Qed.
 
 (* ---- exact packing ------------------------------------------------------- *)
@@ -209,12 +219,6 @@ Proof. exact detector_iff. Qed.
 Theorem C08_detector_code : forall r, scalar r ->
   exists x, g7_find r g7_runs = Some x /\ row_lo x <= r <= row_hi x /\ (row_validate x = true <-> row_cls x = 0).
 Proof. exact g7_code_detector. Qed.
-
-(* ---- the defects repaired by the fix: commits, on the pre-fix variants ---- *)
-Theorem C08_D14_before_fix :
-  let s := [27; 60; 27; 60; 97; 98; 99; 100; 101; 102; 103; 104; 105; 106; 107; 13] in
-  pack_septets_legacy (repeat 0 14%nat) s = Panic /\ pack_septets (repeat 0 14%nat) s <> Panic.
-Proof. exact d14_before_fix. Qed.
 
 (* ---- non-vacuity ----------------------------------------------------------- *)
 (* "1234567": seven septets, CR filler, the repository's own test vector *)
